@@ -135,7 +135,7 @@ func (ev *SpecEval) eval(e SExpr) (TV, error) {
 // allocated object refers to is itself allocated (and well-typed).
 func (ev *SpecEval) closed(base, val string, t types.Type) {
 	c := ev.c
-	if c.specDepth > 0 || t == nil {
+	if c.specDepth > 0 || t == nil || c.noClosed {
 		return
 	}
 	_, isSl := t.Underlying().(*types.Slice)
@@ -693,6 +693,9 @@ func (ev *SpecEval) call(x *SCall) (TV, error) {
 		if err := need(1); err != nil {
 			return TV{}, err
 		}
+		if args[0].Typ == nil && args[0].Sort == "Slice" {
+			return TV{T: "(s_len " + args[0].T + ")", Typ: tInt}, nil
+		}
 		switch typUnder(args[0].Typ).(type) {
 		case *types.Slice:
 			return TV{T: "(s_len " + args[0].T + ")", Typ: tInt}, nil
@@ -775,8 +778,8 @@ func (ev *SpecEval) call(x *SCall) (TV, error) {
 	case "nvarargs":
 		a := c.arr(ev.st, "TR_len", "Int")
 		return TV{T: fmt.Sprintf("(select %s %s)", a, args[0].T), Typ: tInt}, nil
-	case "arg1", "arg2", "arg3", "arg4", "arg5", "result":
-		arr := map[string]string{"arg1": "TR_a1", "arg2": "TR_a2", "arg3": "TR_a3", "arg4": "TR_a4", "arg5": "TR_a5", "result": "TR_res"}[id.Name]
+	case "arg1", "arg2", "arg3", "arg4", "arg5", "arg6", "result":
+		arr := map[string]string{"arg1": "TR_a1", "arg2": "TR_a2", "arg3": "TR_a3", "arg4": "TR_a4", "arg5": "TR_a5", "arg6": "TR_a6", "result": "TR_res"}[id.Name]
 		a := c.arr(ev.st, arr, "Int")
 		t, _ := c.w.LookupType("object.PanObject", "object")
 		return TV{T: fmt.Sprintf("(select %s %s)", a, args[0].T), Typ: t}, nil
